@@ -794,6 +794,7 @@ func main() {
 	bssS := flag.String("bss", "2,3", "block sizes (byte mode)")
 	dir := flag.String("dir", "", "scratch directory (rt mode)")
 	n := flag.Int("n", 20, "number of trees (rt mode)")
+	layoutsF := flag.String("layouts", "", "ndjson file of {files,pl,unit,sf,mode}: process exactly these layouts (replay)")
 	flag.Parse()
 
 	logger.Disable()
@@ -826,6 +827,43 @@ func main() {
 			}
 		}
 	}()
+
+	if *layoutsF != "" {
+		data, err := os.ReadFile(*layoutsF)
+		if err != nil {
+			fatal(err)
+		}
+		for _, line := range strings.Split(string(data), "\n") {
+			if strings.TrimSpace(line) == "" {
+				continue
+			}
+			var in struct {
+				Files [][]int `json:"files"`
+				PL    int     `json:"pl"`
+				Unit  int     `json:"unit"`
+				SF    int     `json:"sf"`
+				Mode  string  `json:"mode"`
+			}
+			if err := json.Unmarshal([]byte(line), &in); err != nil {
+				fatal(err)
+			}
+			l := layout{PL: in.PL, Unit: in.Unit, SF: in.SF == 1}
+			for _, f := range in.Files {
+				l.Files = append(l.Files, fileSpec{Len: f[0], Pad: f[1]})
+			}
+			bss := []int{2, 3}
+			if in.Mode == "scaled" {
+				bss = []int{piece.BlockSize}
+			}
+			c.emit(process(l, in.Mode, bss, rng))
+			progress.Add(1)
+		}
+		c.close()
+		for _, nme := range c.names {
+			fmt.Println(nme)
+		}
+		return
+	}
 
 	switch *mode {
 	case "byte", "scaled":
